@@ -71,3 +71,9 @@ Theorem C01_all_tied_against_strict : forall s l, NoDup l -> t0 s = t1 s ->
 Proof. exact all_tied_against_strict. Qed.
 Print Assumptions C01_all_tied_against_strict.
 
+(** ... and for the candidate that lists the elements in the REVERSE order of the strict input ranking: B[1] for each pair *)
+Theorem C01_reversed_against_strict : forall s l, NoDup l ->
+  kemeny_spec s [strict_of l] (strict_of (rev l)) * 2 = b1 s * (Z.of_nat (length l) * (Z.of_nat (length l) - 1)).
+Proof. exact reversed_against_strict. Qed.
+Print Assumptions C01_reversed_against_strict.
+
